@@ -4,7 +4,7 @@ C15 - decorated generators keep their own action context and stay transparent.
 Engine SEQ over driver schedules: 1-3 instances of generator bodies wrapped
 with eliot_friendly_generator_function are driven by every step sequence up to
 length L with <= k deviations from the default (round-robin, next(), no driver
-action); a step is (generator, op in {next, send(v), throw(E), close}, driver
+action); a step is (generator, op in {next, send(v), throw(E), close, throw(a BaseException subclass)}, driver
 context in {none, inside X, inside Y, a copy of the driver's Context, another thread}).  Oracle: (a) after every resumption
 current_action() inside the body *is* the top of that generator's own
 reference stack (action current in the driver when it was first resumed plus
@@ -33,8 +33,8 @@ RULE = (
     "generator configurations = every single body, every unordered pair and selected triples of 10 "
     "bodies (plain yields with return value, action spanning yields, action between yields, nested "
     "decorated generator via yield from, catching a thrown exception, try/finally logging on close, "
-    "immediate return, two nested actions spanning a yield, catching a thrown exception / GeneratorExit and returning, the same one level down via yield from); driver step sequences of length <= L with "
-    "<= k deviations from (round-robin, next, no context), each deviation replacing a step by any other "
+    "immediate return, two nested actions spanning a yield, catching a thrown exception / GeneratorExit and returning, the same one level down via yield from); driver step sequences of length L with "
+    "<= k(L) deviations from (round-robin, next, no context), each deviation replacing a step by any other "
     "(generator, op, context) triple with context in {none, inside X, inside Y, copied Context, other thread}; states = distinct (per-generator reference stacks, driver "
     "context) vectors, transitions = driver steps; non-trivial = sequence with >= 1 deviation"
 )
@@ -46,6 +46,10 @@ ASSUMPTIONS = [
 
 class Thrown(Exception):
     pass
+
+
+class ThrownBase(BaseException):
+    """Not an Exception: like asyncio.CancelledError / KeyboardInterrupt thrown into a coroutine."""
 
 
 class Env(object):
@@ -167,9 +171,9 @@ def b_catch(env, deco):
     env.probe("start")
     try:
         yield 1
-    except Thrown as e:
+    except (Thrown, ThrownBase) as e:
         env.probe("in-except")
-        yield ("caught", e)
+        yield ("caught", type(e).__name__)
     env.probe("after-try")
     yield 2
     env.probe("r2")
@@ -214,9 +218,9 @@ def b_catch_return(env, deco):
         yield 1
         env.probe("r1")
         yield 2
-    except Thrown as e:
+    except (Thrown, ThrownBase) as e:
         env.probe("in-except")
-        return ("caught-and-returned", e)
+        return ("caught-and-returned", type(e).__name__)
     except GeneratorExit:
         env.probe("in-generator-exit")
         return "swallowed-close"
@@ -234,13 +238,14 @@ def b_nested_catch(env, deco):
 
 
 BODIES = [b_plain, b_span, b_between, b_nested, b_catch, b_finally, b_return, b_two, b_catch_return, b_nested_catch]
-OPS = ["next", "send", "throw", "close"]
+OPS = ["next", "send", "throw", "close", "throw-base"]
 
 
 def BOUNDS(tier):
+    # deviations allowed per sequence length
     if tier == "quick":
-        return {"max_steps": 4, "deviations": 2, "triples": 2}
-    return {"max_steps": 6, "deviations": 2, "triples": 4}
+        return {"deviations_by_length": {1: 1, 2: 2, 3: 2, 4: 1, 5: 1}, "triples": 2}
+    return {"deviations_by_length": {1: 1, 2: 2, 3: 3, 4: 2, 5: 2, 6: 1, 7: 1}, "triples": 4}
 
 
 def configs(tier):
@@ -253,14 +258,14 @@ def configs(tier):
 
 def units(tier):
     b = BOUNDS(tier)
-    return [[c, L, b["deviations"]] for c in configs(tier) for L in range(1, b["max_steps"] + 1)]
+    return [[c, L, k] for c in configs(tier) for L, k in sorted(b["deviations_by_length"].items())]
 
 
 def cases(unit, tier):
     cfg, L, k = unit
     G = len(cfg)
     default = [[i % G, 0, 0] for i in range(L)]
-    alts = [[g, o, c] for g in range(G) for o in range(4) for c in range(5)]
+    alts = [[g, o, c] for g in range(G) for o in range(5) for c in range(5)]
     for d in range(0, k + 1):
         for pos in itertools.combinations(range(L), d):
             choices = [[a for a in alts if a != default[p]] for p in pos]
@@ -311,8 +316,8 @@ def drive(cfg, steps, decorated):
                     elif o == 1:
                         # a just-started generator only accepts None
                         r = ("yield", _v(gen.send("v%d" % si if _running(gen) else None)))
-                    elif o == 2:
-                        e = Thrown("t%d" % si)
+                    elif o in (2, 4):
+                        e = Thrown("t%d" % si) if o == 2 else ThrownBase("b%d" % si)
                         thrown.append(e)
                         if not started[g]:
                             started[g] = True
@@ -322,8 +327,8 @@ def drive(cfg, steps, decorated):
                         r = ("closed", gen.close())
                 except StopIteration as e:
                     r = ("return", _v(e.value))
-                except Thrown as e:
-                    r = ("raised", "Thrown", any(e is t for t in thrown) and e is thrown[-1] or _idx(e, thrown))
+                except (Thrown, ThrownBase) as e:
+                    r = ("raised", type(e).__name__, any(e is t for t in thrown) and e is thrown[-1] or _idx(e, thrown))
                 except BaseException as e:
                     r = ("raised", type(e).__name__, re.sub(r"0x[0-9a-fA-F]+", "0x?", str(e))[:80])
                 after = current_action()
